@@ -71,6 +71,13 @@ Proof.
   destruct H as [p H]; discriminate.
 Qed.
 
+Theorem prove_top_decision_independent bits cap T g commitments promises values blindings wT nn ch nn' ch' :
+  (prove_top K M bits cap T g commitments promises values blindings wT nn ch = None) <->
+  (prove_top K M bits cap T g commitments promises values blindings wT nn' ch' = None).
+Proof.
+  unfold prove_top. destruct (witness_valid _ _ _ _ _ _ _ _ _ _ _); split; intros E; try discriminate; reflexivity.
+Qed.
+
 Theorem emitted_proof_verifies (g : gens K M) bits cap (commitments : list M) (values : list N) (promises : list (option N))
         (blindings : list (list K)) wT (nn : nonces K) (ch : pchals K) seeded nonce mode (w : K) a p :
   let m := length values in
